@@ -208,7 +208,7 @@ def process_suite(rep, mod, suite, model_ok, max_shrink=3):
 
         ops = vlib.shrink_ops(c.ops, still, keep_prefix=c.meta.get("keep_prefix", 0)) if (len(c.ops) > 1 and suite.shrink) else c.ops
         cc = Case(c.cid + "-min", ops, c.meta)
-        i2 = run_impl(suite, [cc], 5 if suite.shrink else 60).get(cc.cid, [])
+        i2 = run_impl(suite, [cc], 5 if suite.shrink else suite.timeout).get(cc.cid, [])
         s2 = run_model(suite.spec_engine, [cc]).get(cc.cid) if (model_ok and suite.spec_engine) else None
         r = suite.monitor(cc, i2, s2) or v
         path = rep.replay_path(suite.name)
@@ -236,7 +236,7 @@ def process_suite(rep, mod, suite, model_ok, max_shrink=3):
 
             ops = vlib.shrink_ops(c.ops, still, keep_prefix=c.meta.get("keep_prefix", 0)) if (len(c.ops) > 1 and suite.shrink) else c.ops
             cc = Case(c.cid + "-min", ops, c.meta)
-            i2 = run_impl(suite, [cc], 5 if suite.shrink else 60).get(cc.cid, [])
+            i2 = run_impl(suite, [cc], 5 if suite.shrink else suite.timeout).get(cc.cid, [])
             m2 = run_model(suite.model_engine, [cc]).get(cc.cid, [])
             d = vlib.first_diff(i2, m2)
             shown.append((cc, i2, m2, d))
